@@ -78,25 +78,86 @@ def describe(t):
 
 
 def nontrivial(line):
+    """kind 0: the limiter refused at least once; kind 1: more than one message was consumed or the
+    stream was refused; kind 2: the dialer recorded a dial or the server asked for dial data."""
     t = line.split()
     if t[0] == b"0":
-        # at least one refusal by the limiter
+        i = 5
+        while i < len(t):
+            if t[i] == b"1":
+                if t[i + 3] == b"0":
+                    return True
+                i += 7
+            elif t[i] == b"2":
+                if t[i + 2] == b"0":
+                    return True
+                i += 4
+            elif t[i] == b"3":
+                i += 3
+            else:
+                i += 1
+        return False
+    if t[0] == b"1":
+        return t[-2] != b"0" or int(t[-1]) >= 2
+    # kind 2: walk the steps
+    i = 5
+    try:
+        while i < len(t):
+            k = t[i]
+            if k == b"1":
+                i += 8 + 3 * int(t[i + 7])
+            elif k == b"2":
+                i += 5
+            elif k == b"3":
+                i += 2
+            else:
+                i += 2
+            nev = int(t[i]); i += 1
+            for _ in range(nev):
+                e = t[i]
+                if e in (b"11", b"12"):
+                    return True
+                i += {b"10": 4, b"11": 4, b"12": 3, b"13": 2}[e]
+    except (IndexError, KeyError, ValueError):
         return True
-    return True
+    return False
+
+
+CLAUSES = {2: "global RPM window", 3: "per-peer RPM window", 4: "dial-data RPM window", 5: "concurrent requests of one peer",
+           11: "dial not covered by a paid-for request of that peer", 12: "OK answer to a request naming no public dialable address",
+           13: "NumBytes outside 30..100 kB", 19: "event for a stream that is not open", 1: "clock not monotone"}
 
 
 def key(tag, toks, d):
-    return "C16:kind%d:%s:%s" % (toks[0] if toks else -1, d[:6], " ".join(map(str, toks[:120])))
+    # identity of a failure: kind + failing clause + limits + the case prefix up to the failing event
+    kind = toks[0] if toks else -1
+    clause = d[2] if len(d) > 2 else (d[0] if d else -1)
+    if kind == 1:
+        return "C16:readDialData:%s:%s" % (d[:1], " ".join(map(str, toks[:60])))
+    return "C16:kind%d:clause%s:limits%s:at%s:%s" % (kind, clause, toks[1:5], d[1] if len(d) > 1 else "?",
+                                                 " ".join(map(str, toks[5:125])))
 
 
 def what(tag, toks, d):
     kinds = {0: "rateLimiter history", 1: "readDialData stream", 2: "server session"}
-    return "%s violates the property at event %s (diag %s)" % (kinds.get(toks[0] if toks else -1, "case"), d[1] if len(d) > 1 else "?", d)
+    kind = toks[0] if toks else -1
+    if kind == 1:
+        return "readDialData returned nil after %s bytes of dial data for numBytes=%s (diag %s)" % (d[3] if len(d) > 3 else "?", toks[1], d)
+    return "%s violates the property at event %s: %s (diag %s)" % (
+        kinds.get(kind, "case"), d[1] if len(d) > 1 else "?", CLAUSES.get(d[2] if len(d) > 2 else -1, "?"), d)
 
 
 if __name__ == "__main__":
     ctx = Ctx("C16")
-    ctx.assumptions = []
+    ctx.assumptions = [
+        "time.Time is an int64 nanosecond count that does not overflow; the clock handed to the limiter does not run backwards (Go's monotonic clock) - hypothesis `mono`/`smono` of the window theorems; the concurrency bound needs no clock hypothesis",
+        "each rateLimiter method is one critical section (it holds r.mu throughout); concurrent calls are modelled as their interleavings",
+        "an entry of DialRequest.addrs is abstracted to (parses, manet.IsPublicAddr, dialerHost.Network().CanDial, identity of its IP literal); the harness computes the first three with the real predicates on real multiaddrs and checks them against the class expected by construction",
+        "NumBytes drawn by the server's RNG and the random wait before the dial are inputs of the model; hypothesis op_wf: minHandshakeSizeBytes <= n < maxHandshakeSizeBytes (rand.Intn's contract); the monitor checks 30000 <= n <= 100000 on every observed DialDataRequest",
+        "dial-data bytes of a message: len(Data) for a well-formed DialDataResponse, the whole length for a message that is not one (the most it could carry); hypothesis msg_wf relates the two (checked on every case by conform_case)",
+        "overlapping dial-backs of one peer share the dialer host's peerstore (a Connect may also dial the other in-flight request's already paid-for address); the harness' dialer fails every dial at once, so dials never overlap: not modelled",
+        "dial status / dial-back stream (nonce delivery) are not part of the property and not modelled; the recording transport fails every dial",
+    ]
     standard_flow(ctx, dict(
         consts=consts,
         coq_targets=["c16/Properties.vo", "c16/Extract.vo"],
@@ -105,6 +166,18 @@ if __name__ == "__main__":
         harness=harness,
         replay_harness=replay_harness, warm=warm,
         nontrivial=nontrivial,
-        rule="TODO",
+        rule="kind 0 (rateLimiter, virtual clock): EXHAUSTIVE enumeration of all sequences of depth 3 (quick) / 4 (thorough) over "
+             "{Accept p0, Accept p1, AcceptDialDataRequest, CompleteRequest} x clock steps {0, 30 s, 1 min - 1 ns} with limits (2,1,1,1), plus seeded "
+             "random histories (20..220 / 620 ops) with production, small and degenerate limits, 1..10 peers, clock steps aimed at the window edge of "
+             "earlier accepted requests (exactly one minute, +-1 ns), bursts, jumps over the window, Close, spurious CompleteRequest; after each call "
+             "the answer and len(reqs), len(peerReqs[p]), len(dialDataReqs), inProgressReqs[p] are compared with the Coq model. "
+             "kind 1 (readDialData): sweep of every data length 0..300 and 8180..8190 as deciding message, random streams of well-formed / raw / tiny / "
+             "oversized / truncated messages, early EOF, exactly-enough and one-byte-short totals, readers that return a few bytes per Read. "
+             "kind 2 (serveDialRequest): seeded sessions in a synctest bubble on scripted streams with a real swarm as dialer whose transport records "
+             "every Dial: 1..3 peers, request lists of 0..55 entries (public/private/no-transport/gated/DNS/unspecified/malformed, own and foreign IPs, "
+             "IPv4-in-IPv6), wrong message types, garbage, EOF, dial-data plans (correct, short, tiny, oversized, broken, one byte short), client "
+             "close, stalls past the stream deadline, up to 4 overlapping requests, idle pauses across the one-minute window. Every response, "
+             "DialDataRequest, reset and dial is compared with the model (conform_case) and judged by the property monitor (monitor_case). "
+             "Non-trivial: a limiter refusal (kind 0); more than one message consumed or an error (kind 1); a dial or a dial-data request (kind 2).",
         describe=describe, key=key, what=what, crosscheck=150,
     ))
